@@ -45,7 +45,7 @@ def make_scenarios(ctx, count):
             for lst in (srcs, reals):
                 for j in range(1, len(lst)):
                     if rng.random() < 0.15:
-                        cand = G.related_mac(rng, lst[j - 1])
+                        cand = G.related_mac(rng, lst[j - 1], fold=rng.random() < 0.3)
                         if cand not in lst and cand != own:
                             lst[j] = cand
             if rng.random() < 0.1:
